@@ -110,6 +110,7 @@ fn gen_step(rng: &mut Rng, max_side: u32, all_filters: &[Filt]) -> Step {
         2 => 6,
         3 => 7,
         4 => 8,
+        5 => 9,
         _ => 0,
     };
     if op >= 1 && op <= 4 {
@@ -121,6 +122,9 @@ fn gen_step(rng: &mut Rng, max_side: u32, all_filters: &[Filt]) -> Step {
     if op >= 7 {
         sk = SrcKind::DynRef;
         dk = DstKind::DynImage;
+    }
+    if op == 9 && (sw == 0 || sh == 0) {
+        op = 0;
     }
     if (op == 7 || op == 8) && rng.chance(1, 2) {
         // same sizes: exercise the success path of the other entry points too
@@ -160,7 +164,7 @@ fn describe_step(s: &Step) -> Value {
     v["src_container"] = json!({"kind": format!("{:?}", s.sk), "place": s.sp.to_json()});
     v["dst_container"] = json!({"kind": format!("{:?}", s.dk), "place": s.dp.to_json()});
     v["backend"] = json!(s.ext.name());
-    v["op"] = json!(["resize", "multiply_alpha", "divide_alpha", "multiply_alpha_inplace", "divide_alpha_inplace", "reset_internal_buffers", "clone_resizer", "mapper", "change_type"][s.op as usize]);
+    v["op"] = json!(["resize", "multiply_alpha", "divide_alpha", "multiply_alpha_inplace", "divide_alpha_inplace", "reset_internal_buffers", "clone_resizer", "mapper", "change_type", "mismatched_pixel_types"][s.op as usize]);
     v
 }
 
@@ -245,9 +249,14 @@ fn exec_step<P: Px>(r: &mut Resizer, s: &Step, k: usize, stats: &mut Stats, viol
             stats.count("mapper_calls", 1);
             record_catch(|| mapper_call::<P>(s, &sb, &mut db))
         }
-        _ => {
+        8 => {
             stats.count("change_type_calls", 1);
             record_catch(|| change_call::<P>(s, &sb, &mut db))
+        }
+        _ => {
+            // dynamic entry points with images of different pixel types: documented errors, never a panic
+            stats.count("mismatched_type_calls", 1);
+            record_catch(|| mismatched_call::<P>(r, s, &sb))
         }
     };
     if let Some(h) = hook_violation(&events) {
@@ -334,6 +343,27 @@ fn mapper_call<P: Px>(s: &Step, sb: &Backing<P>, db: &mut Backing<P>) -> Result<
         return with_dyn_src!(P, sb, s.sk, |src| (if forward { mp.forward_map(&src, &mut dst) } else { mp.backward_map(&src, &mut dst) }).map_err(|e| format!("{:?}", e)));
     }
     with_dyn_src!(P, sb, s.sk, |src| with_dyn_dst!(P, db, s.dk, |d| (if forward { mp.forward_map(&src, &mut d) } else { mp.backward_map(&src, &mut d) }).map_err(|e| format!("{:?}", e))))
+}
+
+fn mismatched_call<P: Px>(r: &mut Resizer, s: &Step, sb: &Backing<P>) -> Result<(), String> {
+    let dpt = other_type(P::PT, s.aux >> 4);
+    let mut dst = Image::new(s.c.dw, s.c.dh, dpt);
+    let opts = s.c.options();
+    let md = MulDiv::new();
+    with_dyn_src!(P, sb, SrcKind::DynRef, |src| {
+        let a = r.resize(&src, &mut dst, &opts).map_err(|e| format!("{:?}", e));
+        let b = md.multiply_alpha(&src, &mut dst).map_err(|e| format!("{:?}", e));
+        let c = md.divide_alpha(&src, &mut dst).map_err(|e| format!("{:?}", e));
+        // views of the wrong pixel type do not exist
+        let wrong_view = {
+            use fr::IntoImageView;
+            src.image_view::<fr::pixels::U8x3>().is_some() && P::PT != PixelType::U8x3
+        };
+        if a.is_ok() || b.is_ok() || c.is_ok() || wrong_view {
+            panic!("images of different pixel types accepted: resize {:?}, multiply {:?}, divide {:?}, wrong view {}", a, b, c, wrong_view);
+        }
+        a
+    })
 }
 
 fn change_call<P: Px>(s: &Step, sb: &Backing<P>, db: &mut Backing<P>) -> Result<(), String> {
